@@ -136,10 +136,13 @@ def handle (j : Json) : Except String Json := do
       | .str cls => pure (.error cls)
       | _ => do let r ← decReq (field j "req"); pure (.ok r)
     let engine : Request → Except String Decision := fun r =>
-      match guardEval o cfg pol r with
-      | .ok (d, _) => .ok d
-      | .error .typeMismatch => .error "ConditionTypeError"
-      | .error (.raised cls) => .error cls
+      match field a "engine_raises" with
+      | .str cls => .error cls                      -- an engine fault injected by the harness (evaluate_async raises)
+      | _ =>
+        match guardEval o cfg pol r with
+        | .ok (d, _) => .ok d
+        | .error .typeMismatch => .error "ConditionTypeError"
+        | .error (.raised cls) => .error cls
     pure (.arr ((asgiCall o acfg st builder engine).map encAction).toArray)
   | "wellformed" => do
     let pol ← fieldVal j "policy"
